@@ -248,6 +248,8 @@ def der_tree_mutations(data):
             yield "tree:body_00", edit(lambda l, i: l.__setitem__(i, [tag, None, b"\x00" * len(body), b""]))
             yield "tree:body_long", edit(lambda l, i: l.__setitem__(i, [tag, None, body * 3, b""]))
         if tag == 0x06:
+            yield "tree:oid_giant_arc", edit(lambda l, i: l.__setitem__(i, [0x06, None, body[:1] + b"\xff" * 2300 + b"\x7f" + body[1:], b""]))
+            yield "tree:oid_giant_last_arc", edit(lambda l, i: l.__setitem__(i, [0x06, None, body + b"\x81" + b"\x80" * 2300 + b"\x00", b""]))
             yield "tree:oid_unknown", edit(lambda l, i: l.__setitem__(i, [0x06, None, body[:-1] + bytes([body[-1] ^ 0x55 & 0x7F]), b""]))
             yield "tree:oid_padded_arc", edit(lambda l, i: l.__setitem__(i, [0x06, None, body[:1] + b"\x80" + body[1:], b""]))
             yield "tree:oid_truncated_arc", edit(lambda l, i: l.__setitem__(i, [0x06, None, body[:-1] + bytes([body[-1] | 0x80]), b""]))
